@@ -46,6 +46,10 @@ type storedProf struct {
 	}
 	Type, PeriodType, PeriodUnit string
 	Payload                      string // stored pprof (uncompressed), as MergeProfiles reads it
+	// the remaining columns of the stored profiles_input row
+	TimestampNs, DurationNs  uint64
+	ServiceName, PayloadType string
+	Tags                     [][2]string
 }
 
 var (
@@ -259,6 +263,19 @@ func store(pd *wmodel.ProfileData) (sp *storedProf, types map[string]string, err
 	sp.PeriodUnit = blk.Col("period_unit")[0].(string)
 	if c := blk.Col("payload"); c != nil {
 		sp.Payload = c[0].(string)
+	}
+	for _, nm := range []string{"timestamp_ns", "duration_ns", "service_name", "payload_type", "tags"} {
+		if blk.Col(nm) == nil {
+			return nil, types, "block has no column " + nm
+		}
+	}
+	sp.TimestampNs = blk.Col("timestamp_ns")[0].(uint64)
+	sp.DurationNs = blk.Col("duration_ns")[0].(uint64)
+	sp.ServiceName = blk.Col("service_name")[0].(string)
+	sp.PayloadType = blk.Col("payload_type")[0].(string)
+	for _, x := range blk.Col("tags")[0].([]any) {
+		t := x.([]any)
+		sp.Tags = append(sp.Tags, [2]string{t[0].(string), t[1].(string)})
 	}
 	return sp, types, ""
 }
